@@ -22,6 +22,8 @@ LEADER_REQUIRED = {
     # a flag column
     "platform_position/occurrence_flag_of_a_leap_second",
     "facility_related_data_5/prf_switching_flag",
+    # selects which projection block is exposed
+    "map_projection/*/map_projection_designator",
 }
 VOLUME_REQUIRED = {
     "volume_descriptor/number_of_file_pointer_records",
@@ -58,7 +60,7 @@ def last_name(path):
 
 
 def is_padding_path(path):
-    return any(layout.is_padding_name(p) for p in path.split("/") if not p.isdigit())
+    return any(layout.is_padding_name(p.split("~")[0]) for p in path.split("/") if not p.isdigit())
 
 
 def is_preamble(path):
